@@ -20,7 +20,7 @@ RECURSIVE SeqsUpTo(_, _)
 SeqsUpTo(S, n) == IF n = 0 THEN {<<>>} ELSE LET R == SeqsUpTo(S, n - 1) IN R \cup {Append(s, c) : s \in R, c \in S}
 
 (* ================================ C10 ================================ *)
-Alpha10 == {"<", ">", "&", ";", "#", "\"", "'", "a", "3", "4", "9", "x", " ", "$e$"}
+Alpha10 == {"<", ">", "&", ";", "#", "\"", "'", "a", "3", "4", "9", "x", " ", "$e$", ","}
 \* the specification of escaping (C10): no raw angle brackets, every '&' becomes an entity, quotes stay as written
 EscCh(c) == CASE c = "<" -> <<"&", "l", "t", ";">> [] c = ">" -> <<"&", "g", "t", ";">>
               [] c = "&" -> <<"&", "a", "m", "p", ";">> [] OTHER -> <<c>>
@@ -62,6 +62,8 @@ Ctx10(L, E, R) ==
    [src |-> "{{ v = " \o L \o " }}[{{ v }}]", out |-> "[" \o E \o "]", c |-> "assign"],
    [src |-> "{{ [" \o L \o "][0] }}", out |-> E, c |-> "array-elem"],
    [src |-> "{{ [" \o L \o ", \"z\"] }}", out |-> E \o ", z", c |-> "array-print"],
+   [src |-> "{{ [\"z\", " \o L \o "] }}", out |-> "z, " \o E, c |-> "array-print-last"],
+   [src |-> "{{ [" \o L \o "] }}", out |-> E, c |-> "array-print-alone"],
    [src |-> "{{ {k: " \o L \o "}.k }}", out |-> E, c |-> "object-value"],
    [src |-> "@if(true){{ " \o L \o " }}@end", out |-> E, c |-> "if-body"],
    [src |-> "{{ true ? " \o L \o " : 'n' }}", out |-> E, c |-> "ternary"],
